@@ -216,7 +216,11 @@ func execHTTP(f []string) string {
 
 // ---- ws -----------------------------------------------------------------------------------------
 //
-//	ws <cs> <ss> <body> <codec j|b> <frames…> <resp…> <end> <gap_us> <close srv|cli|drop> <readn>
+//	ws <cs> <ss> <body> <codec> <frames…> <resp…> <end> <gap_us> <close srv|cli|drop> <readn>
+//
+// codec = <request codec><response codec>, each j (JSON) or b (binary): the request codec is chosen
+// through the handshake's Content-Type, the response codec through Accept. A single letter sends
+// no Accept header (the response falls back to the request marshaler).
 //	  => <upgrade status> <messages op:payload…> <records…> <close> <target received…> <ret> <payloads…>
 //
 // frame = <t|b><g|m>:<hex text>   (opcode text/binary; payload good or malformed)
@@ -233,7 +237,11 @@ func execWS(f []string) string {
 	closeMode := f[9]
 	readN, _ := strconv.Atoi(f[10])
 
-	expectBinary := codec == "b"
+	if codec != "j" && codec != "b" && codec != "jj" && codec != "jb" && codec != "bj" && codec != "bb" {
+		return "BADCODEC"
+	}
+	expectBinary := codec[0] == 'b'         // request marshaler: frame-type check, request payloads
+	respBinary := codec[len(codec)-1] == 'b' // response marshaler: opcode and payload of every response
 	type frame struct {
 		binary, malformed bool
 		text              string
@@ -281,6 +289,15 @@ func execWS(f []string) string {
 	hdr := http.Header{}
 	if expectBinary {
 		hdr.Set("Content-Type", binMime)
+	} else if len(codec) == 2 {
+		hdr.Set("Content-Type", "application/json")
+	}
+	if len(codec) == 2 {
+		if respBinary {
+			hdr.Set("Accept", binMime)
+		} else {
+			hdr.Set("Accept", "application/json")
+		}
 	}
 	dialer := websocket.Dialer{HandshakeTimeout: 5 * time.Second}
 	conn, hresp, err := dialer.Dial("ws"+strings.TrimPrefix(srv.URL, "http")+"/call", hdr)
@@ -326,7 +343,7 @@ func execWS(f []string) string {
 				op = "b"
 			}
 			var rec string
-			if expectBinary {
+			if respBinary {
 				m := dynamicpb.NewMessage(msgDesc)
 				if proto.Unmarshal(data, m) == nil {
 					rec = common.HexS(m.Get(fdText).String())
@@ -419,7 +436,7 @@ func execWS(f []string) string {
 		recv = append(recv, common.HexS(s))
 	}
 	var payloads []string
-	if expectBinary {
+	if respBinary {
 		for _, s := range resp {
 			b, _ := binMarshaler{}.Marshal(nil, newMsg(s).ProtoReflect(), nil)
 			payloads = append(payloads, common.Hex(b))
